@@ -700,7 +700,9 @@ class SoftwareSwitchBase (object):
       # Do we disable send-to-controller when performing this?
       # (Currently, there's the possibility that a table miss from this
       # will result in a send-to-controller which may send back to table...)
-      self._table_lookup(packet, in_port)
+      # The table works on a copy: it may buffer or rewrite the packet, and
+      # the rest of this action list may still modify it too
+      self._table_lookup(ethernet.unpack(packet.pack()), in_port)
     else:
       self.log.warn("Unsupported virtual output port: %d", out_port)
 
